@@ -9,6 +9,7 @@ import common as C
 import fuzzylite as fl
 import gen_engine as G
 from props import c01
+from streams import batch_layouts as S_BL
 from streams import engine_io as S_IO
 
 PID = "C02"
@@ -27,6 +28,7 @@ RULE = ("engines with the General activation method (Mamdani, Larsen, Takagi-Sug
         "non-trivial: batch of >= 2 rows with at least one finite output and (a NaN raw value filled by lock-previous / "
         "default, or two different output values); distinct = distinct (engine, batch)")
 RULE += (" Stream `engine-io` (fv/streams/engine_io.py): look-ups by name / index (positive, negative, bool, missing), input_values / output_values / values on float, 0-d and 1-D values, the input_values setter with 0-d / 1-D / 2-D / higher-dimensional arrays, against Op/EngineIO.lean and Op/InputValues.lean.")
+RULE += (" Families `special-value history` and `memory layouts` (fv/streams/batch_layouts.py): weighted engines whose constants may be +-inf x batches dense in NaN / +-inf cells and all-NaN rows (every order of finite / +inf / -inf / NaN defuzzified values from one row to the next, also across two calls); engines with 2-3 inputs x the same batch held as columns of a C / Fortran matrix, interleaved, reversed and read-only views, ONE array object for variables that read the same signal, lagged windows of one recording, and input matrices whose columns alias each other: compared with the row-by-row run, and every buffer of the caller (of the plain batches too) must hold afterwards what it held before.")
 ASSUMPTIONS = ["batch and row results are produced by the same float operations, so they are compared within 1e-12; the "
                "model comparison uses 1e-7 and the fragile-point filter of C01"]
 LEVEL_TEXT = ("Lean theorems: batch_eq_rows (the single fill-forward / default / clip pass of OutputVariable.defuzzify over a "
@@ -57,9 +59,12 @@ def obs_fuzzy(e, n):
     return out
 
 
-def run_batch(desc, rows, how, first=None):
+def run_batch(desc, rows, how, first=None, layout=None):
+    """one batch; `layout` (streams/batch_layouts.py) says how the caller holds the numbers in memory.  The result carries
+    `touched` when a buffer of the caller no longer holds what it held before the assignment"""
     e = G.build(desc)
     n = len(rows)
+    snap = []
     try:
         with np.errstate(all="ignore"):
             if first:
@@ -68,17 +73,21 @@ def run_batch(desc, rows, how, first=None):
                     iv.value = np.array([r[j] for r in first], dtype=float)
                 e.process()
             if how == "arrays":
-                for j, iv in enumerate(e.input_variables):
-                    iv.value = np.array([r[j] for r in rows], dtype=float)
+                arrs, owned = S_BL.arrays_for(rows, layout)
+                snap = S_BL.snapshot(owned)
+                for iv, arr in zip(e.input_variables, arrs):
+                    iv.value = arr
             else:
-                e.input_values = np.array(rows, dtype=float)
+                matrix, owned = S_BL.matrix_for(rows, layout)
+                snap = S_BL.snapshot(owned)
+                e.input_values = matrix
             e.process()
             vals = np.atleast_2d(e.output_values)
             if vals.shape[0] != n:
                 vals = np.broadcast_to(vals, (n, vals.shape[1]))
-            return {"values": [[float(x) for x in r] for r in vals], "fuzzy": obs_fuzzy(e, n)}
+            return {"values": [[float(x) for x in r] for r in vals], "fuzzy": obs_fuzzy(e, n), "touched": S_BL.touched(snap)}
     except Exception as ex:  # noqa: BLE001
-        return {"error": type(ex).__name__, "msg": str(ex)[:200]}
+        return {"error": type(ex).__name__, "msg": str(ex)[:200], "touched": S_BL.touched(snap)}
 
 
 def run_rows(desc, rows, first=None):
@@ -145,6 +154,19 @@ def oracle(case):
     ok, d = same_obs(m, r)
     if not ok:
         return False, f"input matrix vs row by row: {d} (matrix: {m.get('error')} {m.get('msg', '')}, rows: {r.get('error')})"
+    for nm, b in (("per-variable arrays", a), ("input matrix", m)):
+        if b.get("touched"):
+            return False, f"{nm}: {b['touched']} (the batch belongs to the caller; a row-by-row run leaves it alone)"
+    if case.get("layout"):
+        # the same numbers held the way the layout says (views of one buffer, one object for two variables, ...)
+        lay = case["layout"]
+        for nm, how in ((f"per-variable arrays ({lay})", "arrays"), (f"input matrix ({lay})", "matrix")):
+            b = run_batch(desc, rows, how, layout=lay)
+            ok, d = same_obs(b, r)
+            if not ok:
+                return False, f"{nm} vs row by row: {d} (batch: {b.get('error')} {b.get('msg', '')}, rows: {r.get('error')})"
+            if b.get("touched"):
+                return False, f"{nm}: {b['touched']} (the batch belongs to the caller; a row-by-row run leaves it alone)"
     return True, "ok"
 
 
@@ -165,14 +187,14 @@ def gen_cases(ctx):
         yield case
 
 
-def correspond(ctx):
+def compare(ctx, cases, outs, mism, family="batch"):
+    """every case: three-way comparison on the implementation (the property oracle), then the batch against the model"""
     st = ctx.stats
-    mism = []
-    cases = list(gen_cases(ctx))
-    outs = ctx.driver.eval([C.sx(["process", G.engine_sx(c["engine"]), c["rows"]]) for c in cases])
     for case, line in zip(cases, outs):
         desc, rows = case["engine"], case["rows"]
         st.count(f"rows={len(rows)}")
+        if family != "batch":
+            st.count("layout=" + case["layout"] if case.get("layout") else "special-value history")
         ok, detail = oracle(case)
         a = run_batch(desc, rows, "arrays")
         nt = "error" not in a and len(rows) >= 2 and any(math.isfinite(v) for r in a["values"] for v in r) and \
@@ -216,13 +238,32 @@ def correspond(ctx):
                 st.skipped_fragile += 1
             else:
                 mism.append({"case": case, "impl": a["values"], "model": str(m[1])[:300], "what": bad})
+
+
+def model_lines(cases):
+    return [C.sx(["process", G.engine_sx(c["engine"]), c["rows"]]) for c in cases]
+
+
+def correspond(ctx):
+    mism = []
+    cases = list(gen_cases(ctx))
+    compare(ctx, cases, ctx.driver.eval(model_lines(cases)), mism)
+    later = []
+
+    def more(ctx):
+        # drawn after every earlier stream (their inputs stay what they were for a seed): batches dense in NaN / +-inf raw
+        # output values, and batches held in memory in every way a caller may hold them (streams/batch_layouts.py)
+        cs = list(S_BL.gen_special_history_cases(ctx)) + list(S_BL.gen_layout_cases(ctx))
+        return model_lines(cs), lambda outs: compare(ctx, cs, outs, later, family="more")
+
     # the accessors of Engine against Op/EngineIO.lean, Op/InputValues.lean (models of the code ties C02.code_*)
-    mism += S_IO.run(ctx)
-    return mism
+    mism += S_IO.run(ctx, more)
+    return mism + later
 
 
 def search(ctx):
-    for case in gen_cases(ctx):
+    import itertools
+    for case in itertools.chain(gen_cases(ctx), S_BL.gen_special_history_cases(ctx), S_BL.gen_layout_cases(ctx)):
         ok, d = oracle(case)
         if not ok:
             return [(case, d)]
